@@ -4,9 +4,9 @@ from .util import call
 
 ID = 'C07'
 LEAN_MODULE = 'KernProofs.C07'
-EXTRA_MODULES = ['KernProofs.C07Doc']
+EXTRA_MODULES = ['KernProofs.C07Doc', 'KernProofs.C07Text']
 THEOREMS = ['KM.C07.C07_reject_negative_start', 'KM.C07.C07_reject_end_beyond', 'KM.C07.C07_reject_end_before_start', 'KM.C07.C07_valid_pair', 'KM.C07.C07_stop_stage', 'KM.C07.C07_start_stage', 'KM.C07.C07_body', 'KM.C07.C07_rows_unmodified', 'KM.C07.intervals_lo_ge', 'KM.C07.C07_partition', 'KM.C07.C07_iterate', 'KM.exportParts_noRange',
-            'KM.C07D.startsOf_append', 'KM.C07D.cellStep_bar', 'KM.C07D.cellsLoop_bar', 'KM.C07D.rowStep_bar', 'KM.C07D.runRows_bar', 'KM.C07D.C07_measure_index']
+            'KM.C07D.startsOf_append', 'KM.C07D.cellStep_bar', 'KM.C07D.cellsLoop_bar', 'KM.C07D.rowStep_bar', 'KM.C07D.runRows_bar', 'KM.C07D.C07_measure_index', 'KM.C07T.C07_range_of_text']
 FINGERPRINTS = ['exporter.Exporter.export_string', 'exporter.Exporter.export_options_validator', 'importer.Importer', 'document.Document']
 RULE = ('generated **kern-only documents (1-4 spines, with/without opening barline, pickup, final barline, nested splits; quick 30 / thorough 300) '
         'x EVERY pair 1 <= a <= b <= M plus out-of-range pairs (a < 0, b > M, b < a): the data lines of the range export are compared with the data '
